@@ -42,6 +42,8 @@ type Op struct {
 	Hi   uint64 `json:"hi,omitempty"`
 	From uint64 `json:"from,omitempty"`
 	To   uint64 `json:"to,omitempty"`
+	// NS: do not wait for quiescence before the operation (delete only)
+	NS bool `json:"no_settle,omitempty"`
 }
 
 func (o Op) String() string {
@@ -258,7 +260,9 @@ func (w *World) Apply(op Op) (err error, pan string) {
 			}
 		}
 	case "delete":
-		w.settle()
+		if !op.NS {
+			w.settle()
+		}
 		head, tail := w.headTail()
 		err, pan = vk.TryErr(func() error { return w.St.DeleteRange(ctx, op.From, op.To) })
 		if err == nil && pan == "" {
